@@ -87,6 +87,7 @@ Proof.
       destruct (service_sends c s1 k) as [[s2 r2] n2]. unfold st in *; cbn in *.
       now rewrite A, B, C.
   - reflexivity.
+  - reflexivity.
   - destruct (is_client (kd c) && negb (connected s)); reflexivity.
 Qed.
 
@@ -132,6 +133,7 @@ Proof.
       destruct (service_sends c s1 k) as [[s2 r2] n2]. unfold st in *; cbn in *.
       exists d. now rewrite Hd, B.
   - exists []; cbn; now rewrite app_nil_r.
+  - exists []; cbn; now rewrite app_nil_r.
   - exists []; rewrite app_nil_r. destruct (is_client (kd c) && negb (connected s)); reflexivity.
 Qed.
 
@@ -157,17 +159,20 @@ Qed.
 
 Definition Inv (c : cfg) (s : conn) : Prop :=
   taken s ++ rxbs s = k_recvd s /\
-  log_of DTx (wlog s) = (if wl_tx c then k_sent s else []) /\
-  log_of DRx (wlog s) = (if wl_rx c then k_recvd s else []) /\
-  Forall (fun r => snd r <> []) (wlog s).
+  log_of DTx (wlog s) = lg_tx s /\
+  log_of DRx (wlog s) = lg_rx s /\
+  Forall (fun r => snd r <> []) (wlog s) /\
+  (wl_now s = None ->
+   lg_tx s = (if wl_tx c then k_sent s else []) /\ lg_rx s = (if wl_rx c then k_recvd s else [])).
 
 Lemma Inv_init : forall c b, Inv c (init b).
-Proof. intros. unfold Inv, init; cbn. destruct (wl_tx c), (wl_rx c); auto. Qed.
+Proof. intros. unfold Inv, init; cbn. destruct (wl_tx c), (wl_rx c); auto 6. Qed.
 
 Lemma Inv_same : forall c s s',
   taken s' = taken s -> rxbs s' = rxbs s -> k_recvd s' = k_recvd s -> k_sent s' = k_sent s ->
-  wlog s' = wlog s -> Inv c s -> Inv c s'.
-Proof. unfold Inv. intros c s s' -> -> -> -> ->. auto. Qed.
+  wlog s' = wlog s -> wl_now s' = wl_now s -> lg_tx s' = lg_tx s -> lg_rx s' = lg_rx s ->
+  Inv c s -> Inv c s'.
+Proof. unfold Inv. intros c s s' -> -> -> -> -> -> -> ->. auto. Qed.
 
 Lemma Inv_cut : forall c s, Inv c s -> Inv c (cut s).
 Proof. intros. eapply Inv_same; eauto. Qed.
@@ -175,23 +180,32 @@ Proof. intros. eapply Inv_same; eauto. Qed.
 Lemma Inv_set_txbs : forall c s b, Inv c s -> Inv c (set_txbs s b).
 Proof. intros. eapply Inv_same; eauto. Qed.
 
-Local Ltac proj := cbn [moved rx_extend set_rx wlog k_sent k_recvd taken rxbs txbs log_on connected cutoff].
+Local Ltac proj := cbn [moved rx_extend set_rx wlog k_sent k_recvd taken rxbs txbs connected cutoff wl_now lg_tx lg_rx].
 
 Lemma Inv_moved_tx : forall c s b, b <> [] -> Inv c s -> Inv c (moved c DTx b s).
 Proof.
-  unfold Inv. intros c s b Hb (A & B & C & D). proj. repeat split; auto.
-  - destruct (wl_tx c); auto. now rewrite log_of_snoc, B.
-  - destruct (wl_tx c); auto. rewrite log_of_snoc, C. cbn [dir_eqb]. now rewrite app_nil_r.
-  - destruct (wl_tx c); auto. apply Forall_app. split; auto.
+  unfold Inv. intros c s b Hb (A & B & C & D & E). proj.
+  destruct (log_on c s DTx) eqn:L; repeat split; auto.
+  - now rewrite log_of_snoc, B.
+  - rewrite log_of_snoc, C. cbn [dir_eqb]. now rewrite app_nil_r.
+  - apply Forall_app. split; auto.
+  - destruct (E H) as [E1 _]. unfold log_on in L. rewrite H in L. rewrite L in *. now rewrite E1.
+  - now destruct (E H).
+  - destruct (E H) as [E1 _]. unfold log_on in L. rewrite H in L. rewrite L in *. exact E1.
+  - now destruct (E H).
 Qed.
 
 Lemma Inv_moved_rx : forall c s b, b <> [] -> Inv c s -> Inv c (rx_extend (moved c DRx b s) b).
 Proof.
-  unfold Inv. intros c s b Hb (A & B & C & D). proj. repeat split; auto.
-  - now rewrite app_assoc, A.
-  - destruct (wl_rx c); auto. rewrite log_of_snoc, B. cbn [dir_eqb]. now rewrite app_nil_r.
-  - destruct (wl_rx c); auto. now rewrite log_of_snoc, C.
-  - destruct (wl_rx c); auto. apply Forall_app. split; auto.
+  unfold Inv. intros c s b Hb (A & B & C & D & E). proj.
+  destruct (log_on c s DRx) eqn:L; repeat split; auto; try (now rewrite app_assoc, A).
+  - rewrite log_of_snoc, B. cbn [dir_eqb]. now rewrite app_nil_r.
+  - now rewrite log_of_snoc, C.
+  - apply Forall_app. split; auto.
+  - now destruct (E H).
+  - destruct (E H) as [_ E2]. unfold log_on in L. rewrite H in L. rewrite L in *. now rewrite E2.
+  - now destruct (E H).
+  - destruct (E H) as [_ E2]. unfold log_on in L. rewrite H in L. rewrite L in *. exact E2.
 Qed.
 
 Lemma firstn_nonnil : forall A n (l : list A), n <> 0 -> l <> [] -> firstn n l <> [].
@@ -258,8 +272,8 @@ Proof.
       destruct r1; [|exact A].
       pose proof (Inv_service_sends c s1 k A) as B.
       destruct (service_sends c s1 k) as [[s2 r2] n2]. exact B.
-  - destruct H as (A & B & C & D). unfold Inv; cbn. repeat split; auto.
-    now rewrite app_nil_r.
+  - destruct H as (A & B & C & D & E). unfold Inv; cbn. repeat split; auto; try (now rewrite app_nil_r); now destruct (E H).
+  - destruct H as (A & B & C & D & E). unfold Inv; cbn. repeat split; auto; discriminate.
   - destruct (is_client (kd c) && negb (connected s)); auto.
 Qed.
 
@@ -337,6 +351,7 @@ Definition healthy (c : cfg) (o : op) : bool :=
   | SvcRecvOnce k => healthy_r c k
   | Service k ks => healthy_s c k && forallb (healthy_r c) ks
   | TakeRx => true
+  | WlSet _ _ => true
   | Connect => true
   end.
 (* services in which the kernel takes at least one byte *)
@@ -429,6 +444,7 @@ Proof.
         destruct (service_sends c s1 k) as [[s2 r2] n2]. unfold st in *. cbn in *.
         split; [rewrite (gate_same c s s2); auto; congruence|]. rewrite <- C. exact C'.
   - cbn. split; auto. lia.
+  - cbn. split; auto. lia.
   - destruct (is_client (kd c) && negb (connected s)) eqn:E; unfold st; cbn [fst]; [|split; auto; lia].
     split; [|cbn; lia]. unfold gate in *. cbn. apply andb_true_iff in E. destruct E as [E1 E2].
     rewrite E1 in *. destruct (connected s); discriminate.
@@ -452,3 +468,141 @@ Proof.
     rewrite T2. pose proof (step_tx c s o) as X. cbn in X. rewrite X.
     destruct o; cbn [payload]; try now rewrite app_nil_r. discriminate.
 Qed.
+
+(* ---------- wire log under reconfiguration: exactly the bytes moved while a direction is enabled ---------- *)
+
+Definition is_wl (o : op) : bool := match o with WlSet _ _ => true | _ => false end.
+Definition no_wl (ops : list op) : bool := forallb (fun o => negb (is_wl o)) ops.
+
+Definition delta (c : cfg) (s s' : conn) : Prop :=
+  wl_now s' = wl_now s /\
+  exists ds dr, k_sent s' = k_sent s ++ ds /\ k_recvd s' = k_recvd s ++ dr /\
+    lg_tx s' = lg_tx s ++ (if log_on c s DTx then ds else []) /\
+    lg_rx s' = lg_rx s ++ (if log_on c s DRx then dr else []).
+
+Lemma log_on_same : forall c s s' d, wl_now s' = wl_now s -> log_on c s' d = log_on c s d.
+Proof. intros c s s' d H. unfold log_on. now rewrite H. Qed.
+
+Lemma delta_fields : forall c s s',
+  wl_now s' = wl_now s -> k_sent s' = k_sent s -> k_recvd s' = k_recvd s ->
+  lg_tx s' = lg_tx s -> lg_rx s' = lg_rx s -> delta c s s'.
+Proof.
+  intros c s s' A B C D E. split; auto. exists [], []. rewrite B, C, D, E.
+  destruct (log_on c s DTx), (log_on c s DRx); now rewrite !app_nil_r.
+Qed.
+
+Lemma delta_refl : forall c s, delta c s s.
+Proof. intros. now apply delta_fields. Qed.
+
+Lemma delta_trans : forall c s1 s2 s3, delta c s1 s2 -> delta c s2 s3 -> delta c s1 s3.
+Proof.
+  intros c s1 s2 s3 (W1 & ds1 & dr1 & A1 & B1 & C1 & D1) (W2 & ds2 & dr2 & A2 & B2 & C2 & D2).
+  split; [congruence|]. exists (ds1 ++ ds2), (dr1 ++ dr2).
+  rewrite (log_on_same c s1 s2 DTx W1) in C2. rewrite (log_on_same c s1 s2 DRx W1) in D2.
+  rewrite A2, A1, B2, B1, C2, C1, D2, D1.
+  destruct (log_on c s1 DTx), (log_on c s1 DRx); now rewrite <- ?app_assoc, ?app_nil_r.
+Qed.
+
+Lemma delta_moved : forall c d b s, delta c s (moved c d b s).
+Proof.
+  intros c d b s. split; [reflexivity|]. destruct d.
+  - exists b, []. cbn. destruct (log_on c s DTx), (log_on c s DRx); now rewrite ?app_nil_r.
+  - exists [], b. cbn. destruct (log_on c s DTx), (log_on c s DRx); now rewrite ?app_nil_r.
+Qed.
+
+Lemma delta_service_sends : forall c s k, delta c s (st (service_sends c s k)).
+Proof.
+  intros c s k. unfold service_sends, st.
+  destruct (negb (is_nil (txbs s)) && gate c s); cbn [fst]; [|apply delta_refl].
+  unfold send. destruct k as [n|e].
+  - destruct n; cbn [fst]; [now apply delta_fields|].
+    eapply delta_trans; [apply delta_moved|now apply delta_fields].
+  - destruct (classify (kd c) DTx e); cbn [fst]; now apply delta_fields.
+Qed.
+
+Lemma delta_receive_extend : forall c s k s' r,
+  receive c s k = (s', r) ->
+  match r with
+  | Ok (Some (b :: d)) => delta c s (rx_extend s' (b :: d))
+  | _ => delta c s s'
+  end.
+Proof.
+  intros c s k s' r E. unfold receive in E. destruct k as [d|e].
+  - destruct d; inversion E; subst; [now apply delta_fields|].
+    eapply delta_trans; [apply delta_moved|now apply delta_fields].
+  - destruct (classify (kd c) DRx e); inversion E; subst; now apply delta_fields.
+Qed.
+
+Lemma delta_service_receives : forall c ks s, delta c s (st (service_receives c s ks)).
+Proof.
+  intros c ks. induction ks as [|k ks IH]; intros s; cbn [service_receives].
+  - destruct (gate c s); apply delta_refl.
+  - destruct (gate c s); [|apply delta_refl].
+    destruct (receive c s k) as [s1 r] eqn:E. pose proof (delta_receive_extend _ _ _ _ _ E) as R.
+    destruct r as [[[|b d]|]|e]; try exact R.
+    specialize (IH (rx_extend s1 (b :: d))).
+    destruct (service_receives c (rx_extend s1 (b :: d)) ks) as [[s2 r2] n2]. unfold st in *. cbn [fst] in *.
+    eapply delta_trans; eauto.
+Qed.
+
+Lemma delta_service_receive_once : forall c s k, delta c s (st (service_receive_once c s k)).
+Proof.
+  intros c s k. unfold service_receive_once, st. destruct (gate c s); [|apply delta_refl].
+  destruct (receive c s k) as [s1 r] eqn:E. pose proof (delta_receive_extend _ _ _ _ _ E) as R.
+  destruct r as [[[|b d]|]|e]; exact R.
+Qed.
+
+Lemma delta_step : forall c s o, is_wl o = false -> delta c s (st (step c s o)).
+Proof.
+  intros c s o H. destruct o; cbn [step]; try discriminate.
+  - now apply delta_fields.
+  - apply delta_service_sends.
+  - apply delta_service_receives.
+  - apply delta_service_receive_once.
+  - destruct (is_client (kd c)).
+    + pose proof (delta_service_sends c s k) as A.
+      destruct (service_sends c s k) as [[s1 r1] n1]. unfold st in A; cbn [fst] in A.
+      destruct r1; [|exact A].
+      pose proof (delta_service_receives c ks s1) as B.
+      destruct (service_receives c s1 ks) as [[s2 r2] n2]. unfold st in *; cbn [fst] in *.
+      eapply delta_trans; eauto.
+    + pose proof (delta_service_receives c ks s) as A.
+      destruct (service_receives c s ks) as [[s1 r1] n1]. unfold st in A; cbn [fst] in A.
+      destruct r1; [|exact A].
+      pose proof (delta_service_sends c s1 k) as B.
+      destruct (service_sends c s1 k) as [[s2 r2] n2]. unfold st in *; cbn [fst] in *.
+      eapply delta_trans; eauto.
+  - now apply delta_fields.
+  - destruct (is_client (kd c) && negb (connected s)); now apply delta_fields.
+Qed.
+
+Lemma delta_exec : forall c ops s, no_wl ops = true -> delta c s (exec c s ops).
+Proof.
+  intros c ops. induction ops as [|o ops IH]; intros s H; cbn [exec]; [apply delta_refl|].
+  unfold no_wl in H. cbn [forallb] in H. apply andb_true_iff in H. destruct H as [Ho Hr].
+  assert (Hw : is_wl o = false) by (destruct (is_wl o); [discriminate|reflexivity]).
+  eapply delta_trans; [apply (delta_step c s o Hw)|apply IH; exact Hr].
+Qed.
+
+(* For any reachable state (any history, reconfigurations included) and any continuation without
+   reconfiguration: a disabled direction's log receives nothing, an enabled direction's log grows by
+   exactly the bytes the kernel moved in that direction. *)
+Theorem wirelog_segment : forall c conn0 pre ops,
+  no_wl ops = true ->
+  let s := exec c (init conn0) pre in
+  let s' := exec c s ops in
+  exists ds dr,
+    k_sent s' = k_sent s ++ ds /\ k_recvd s' = k_recvd s ++ dr /\
+    log_of DTx (wlog s') = log_of DTx (wlog s) ++ (if log_on c s DTx then ds else []) /\
+    log_of DRx (wlog s') = log_of DRx (wlog s) ++ (if log_on c s DRx then dr else []).
+Proof.
+  intros c conn0 pre ops H s s'.
+  pose proof (Inv_exec c pre _ (Inv_init c conn0)) as (_ & T1 & R1 & _).
+  pose proof (Inv_exec c (pre ++ ops) _ (Inv_init c conn0)) as (_ & T2 & R2 & _).
+  rewrite exec_app in T2, R2. fold s in T1, R1, T2, R2. fold s' in T2, R2.
+  destruct (delta_exec c ops s H) as (_ & ds & dr & A & B & C & D). fold s' in A, B, C, D.
+  exists ds, dr. rewrite T2, R2, T1, R1. auto.
+Qed.
+
+Lemma no_wl_static : forall c ops s, no_wl ops = true -> wl_now (exec c s ops) = wl_now s.
+Proof. intros c ops s H. now destruct (delta_exec c ops s H). Qed.
